@@ -165,6 +165,10 @@ struct IRunner {
     virtual int class_of_id(type_id id) const = 0; // -1 if not an id of the universe
     virtual std::string shape_of(int m) const = 0;
     virtual std::string layout_json() const = 0; // as of the last successful update
+    // ---- generated static offsets (C12)
+    virtual std::string write_offsets() = 0;   // runs the real generator, returns JSON fields
+    virtual bool load_offsets(int m, int which, int idx, int delta, std::string& json) = 0;
+    virtual bool callable(int m) = 0;
     // ---- virtual_ptr handles (C09 / C15)
     // node k of the C++ chain Node<0..3> stands for spec class c (its static id); before registering c
     virtual bool map_node(int k, int c) = 0;
